@@ -378,7 +378,7 @@ func rowsEqual(a, b Row) bool {
 // ---------- bytea text codecs (utils) ----------
 
 func init() {
-	core.Register("C12.bytea.octal.enc", func(a []string) string { return core.Hex(acrautils.EncodeToOctal(core.UnHex(a[0]))) })
+	core.Register("C12.bytea.octal.enc", func(a []string) string { return core.OkHex(acrautils.EncodeToOctal(core.UnHex(a[0]))) })
 	core.Register("C12.bytea.octal.dec", func(a []string) string {
 		out, err := acrautils.DecodeOctal(core.UnHex(a[0]))
 		if err != nil {
@@ -386,7 +386,7 @@ func init() {
 		}
 		return core.OkHex(out)
 	})
-	core.Register("C12.bytea.hex.enc", func(a []string) string { return core.Hex(acrautils.PgEncodeToHex(core.UnHex(a[0]))) })
+	core.Register("C12.bytea.hex.enc", func(a []string) string { return core.OkHex(acrautils.PgEncodeToHex(core.UnHex(a[0]))) })
 	core.Register("C12.bytea.escaped.dec", func(a []string) string {
 		out, err := acrautils.DecodeEscaped(core.UnHex(a[0]))
 		if err == acrautils.ErrDecodeOctalString {
